@@ -46,9 +46,10 @@ type EBin struct {
 }
 type ECond struct{ C, A, B Expr }
 type EQuant struct {
-	Forall bool
-	Vars   []qvar
-	Body   Expr
+	Forall   bool
+	Vars     []qvar
+	Body     Expr
+	Triggers []Expr // optional {e1, e2}: one multi-pattern
 }
 type qvar struct {
 	Name string
@@ -269,6 +270,16 @@ func (p *parser) quant(forall bool) Expr {
 		}
 		break
 	}
+	if p.isOp("{") {
+		p.pos++
+		for !p.isOp("}") {
+			q.Triggers = append(q.Triggers, p.expr(0))
+			if p.isOp(",") {
+				p.pos++
+			}
+		}
+		p.expectOp("}")
+	}
 	p.expectOp("::")
 	q.Body = p.expr(0)
 	return q
@@ -395,6 +406,7 @@ type AssignPat struct {
 }
 
 type PureFunc struct {
+	Opaque bool
 	Name   string
 	Params []qvar
 	Result TypeExpr
@@ -404,12 +416,13 @@ type PureFunc struct {
 }
 
 type Lemma struct {
-	Name  string
-	Props []string
-	Body  Expr
-	Text  string
-	Pkg   string
-	Uses  []string // axioms / options
+	Applies []Expr // lemma applications: other lemmas instantiated at explicit arguments
+	Name    string
+	Props   []string
+	Body    Expr
+	Text    string
+	Pkg     string
+	Uses    []string // axioms / options
 }
 
 type LetDef struct {
@@ -435,6 +448,7 @@ type FuncContract struct {
 	NoLocks    bool
 	Entry      bool // entry point: requires nothing held
 	Opts       map[string]string
+	Applies    []Expr // lemma applications assumed at entry (instantiated at explicit arguments)
 }
 
 type LockDecl struct {
@@ -463,7 +477,7 @@ func (db *ContractDB) allowPanic(fn string) bool {
 }
 
 var clauseKeywords = map[string]bool{
-	"guard": true, "lock": true, "lockorder": true, "pure": true, "lemma": true, "func": true, "props": true, "safety": true,
+	"opaque": true, "apply": true, "reveal": true, "guard": true, "lock": true, "lockorder": true, "pure": true, "lemma": true, "func": true, "props": true, "safety": true,
 	"requires": true, "ensures": true, "let": true, "assigns": true, "loop": true, "invariant": true,
 	"decreases": true, "allow_panic": true, "modular": true, "init_context": true, "entry": true, "option": true, "uses": true, "end": true,
 }
@@ -594,9 +608,29 @@ func (db *ContractDB) addClauses(pkg string, clauses []string, path string) erro
 				return fmt.Errorf("bad lockorder %q", cl)
 			}
 			db.lockOrder = append(db.lockOrder, [2]string{strings.TrimSpace(f[0]), strings.TrimSpace(f[1])})
-		case "pure":
-			// pure func name(a T, b U) R = expr
-			r := strings.TrimSpace(strings.TrimPrefix(rest, "func"))
+		case "apply":
+			e, err := mustParse(rest)
+			if err != nil {
+				return err
+			}
+			if curLemma != nil {
+				curLemma.Applies = append(curLemma.Applies, e)
+			} else if cur != nil {
+				cur.Applies = append(cur.Applies, e)
+			} else {
+				return fmt.Errorf("apply outside a lemma or func block: %q", cl)
+			}
+		case "reveal":
+			if curLemma != nil {
+				for _, n := range strings.Fields(rest) {
+					curLemma.Uses = append(curLemma.Uses, "reveal:"+n)
+				}
+			} else if cur != nil {
+				cur.Opts["reveal"] += " " + rest
+			}
+		case "pure", "opaque":
+			// [opaque] pure func name(a T, b U) R = expr
+			r := strings.TrimSpace(strings.TrimPrefix(strings.TrimSpace(strings.TrimPrefix(rest, "pure")), "func"))
 			eqi := strings.Index(r, "=")
 			// find the '=' that follows the signature: first '=' after the closing paren of params
 			depth := 0
@@ -616,7 +650,7 @@ func (db *ContractDB) addClauses(pkg string, clauses []string, path string) erro
 			sig, body := strings.TrimSpace(r[:eqi]), strings.TrimSpace(r[eqi+1:])
 			op := strings.Index(sig, "(")
 			cp := strings.LastIndex(sig, ")")
-			pf := &PureFunc{Name: strings.TrimSpace(sig[:op]), Text: body, Pkg: pkg}
+			pf := &PureFunc{Name: strings.TrimSpace(sig[:op]), Text: body, Pkg: pkg, Opaque: kw == "opaque"}
 			params := strings.TrimSpace(sig[op+1 : cp])
 			if params != "" {
 				var pending []string
@@ -646,6 +680,12 @@ func (db *ContractDB) addClauses(pkg string, clauses []string, path string) erro
 		case "lemma":
 			i := strings.Index(rest, ":")
 			name := strings.TrimSpace(rest[:i])
+			if j := strings.Index(name, "["); j >= 0 {
+				for _, p := range strings.Split(strings.Trim(name[j:], "[] "), ",") {
+					props = append(props, strings.TrimSpace(p))
+				}
+				name = strings.TrimSpace(name[:j])
+			}
 			body := strings.TrimSpace(rest[i+1:])
 			e, err := mustParse(body)
 			if err != nil {
